@@ -53,7 +53,7 @@ def mean_edge_length(mesh : Mesh, n : int = None) -> float:
         float: the computed mean edge length
     """
     l = 0
-    if n is None: n = len(mesh.edges)
+    if n is None or n > len(mesh.edges): n = len(mesh.edges) # never divide by more elements than are summed
     for k in range(min(n, len(mesh.edges))):
         a,b = (Vec(mesh.vertices[u]) for u in mesh.edges[k])
         l += (b-a).norm()
@@ -77,7 +77,7 @@ def mean_face_area(mesh : SurfaceMesh, n : int = None) -> float:
         farea = mesh.faces.get_attribute("area")
     else:
         farea = face_area(mesh)
-    if n is None: n = len(mesh.faces)
+    if n is None or n > len(mesh.faces): n = len(mesh.faces) # never divide by more elements than are summed
     res = 0
     for k in range(min(n, len(mesh.faces))):
         res += farea[k]
@@ -101,7 +101,7 @@ def mean_cell_volume(mesh : VolumeMesh, n : int = None) -> float:
         cvol = mesh.cells.get_attribute("volume")
     else:
         cvol = cell_volume(mesh)
-    if n is None: n = len(mesh.cells)
+    if n is None or n > len(mesh.cells): n = len(mesh.cells) # never divide by more elements than are summed
     res = 0
     for k in range(min(n, len(mesh.cells))):
         res += cvol[k]
